@@ -1254,6 +1254,9 @@ impl Vm {
         self.active_fiber_mut().frames.pop();
         if self.active_fiber().has_finished() {
             if self.active_fiber().caller.is_some() {
+                // The fiber's body has returned: drop what is left on its stack, so that a
+                // finished fiber that is still referenced keeps none of its old locals alive.
+                self.active_fiber_mut().stack.truncate(prev_stack_size);
                 self.unload_fiber(None)?;
                 self.poke(0, result);
                 return Ok(None);
